@@ -73,6 +73,7 @@ func Alphabet(names ...string) []Letter {
 	reg(Letter{Name: "DELETE nhg1@V", NI: V, Op: del, Entry: ribx.NHGEntry(1, 0)})
 	// ipv4
 	reg(Letter{Name: "ADD v4 p@D ->1", NI: D, Op: add, Entry: ribx.V4Entry("10.0.0.0/8", 1, "", nil)})
+	reg(Letter{Name: "ADD v4 p@D ->1 meta", NI: D, Op: add, Entry: ribx.V4Entry("10.0.0.0/8", 1, "", []byte{7})})
 	reg(Letter{Name: "ADD v4 p@D ->2", NI: D, Op: add, Entry: ribx.V4Entry("10.0.0.0/8", 2, "", nil)})
 	reg(Letter{Name: "ADD v4 p@D ->1@V", NI: D, Op: add, Entry: ribx.V4Entry("10.0.0.0/8", 1, V, nil)})
 	reg(Letter{Name: "REPLACE v4 p@D ->1 meta", NI: D, Op: rep, Entry: ribx.V4Entry("10.0.0.0/8", 1, "", []byte{7})})
@@ -153,6 +154,9 @@ type Options struct {
 	Checks      Checks
 	Hook        HookConfig
 	ObsVerdicts bool // differential oracle: delete verdict positivity per key
+	// Init is a history applied to every fresh instance before the search starts (searching from a non-initial
+	// state: "everything installed" reaches retargeting behaviour at small depth).
+	Init []Letter
 }
 
 type inst struct {
@@ -190,6 +194,9 @@ func New(o *Options) func() mc.Instance {
 		default:
 			must(in.r.AddNetworkInstance(V))
 		}
+		for _, l := range o.Init {
+			in.apply(l, false)
+		}
 		return in
 	}
 }
@@ -208,7 +215,10 @@ func (in *inst) attachHook() {
 }
 
 func (in *inst) Apply(li int, check bool) []mc.Fail {
-	l := in.o.Letters[li]
+	return in.apply(in.o.Letters[li], check)
+}
+
+func (in *inst) apply(l Letter, check bool) []mc.Fail {
 	in.step++
 	if l.Entry == nil {
 		return in.flush(l, check)
